@@ -20,7 +20,7 @@ ID = 'C15'
 LEVEL = 'fault_enumeration'
 RULE = ('for seeded documents (prose with non-ASCII text, macros, several lines) a valid answer with 2-3 matches is built, then mutated: all single-field deletions (every path of the JSON tree), '
         'type changes per field to {null,true,int,float,string,list,object}, perturbations of offset/length/context offset/context length to {-1,0,1,len-1,len,len+1,len+2,len+3,10^6,-10^6}, byte truncations '
-        '(all positions inside multi-byte characters, every k-th elsewhere), degenerate answers (empty, [], {}, null, text, matches not a list, match not an object), all in-range (offset,length) pairs on a short text; '
+        '(all positions inside multi-byte characters, every k-th elsewhere), degenerate answers (empty, [], {}, null, text, matches not a list, match not an object), all in-range (offset,length) pairs on a short text, answers with a long multi-line match followed by short ones inside it; '
         'modes rotate over plain/json/xml/xml-b/html (quick) or all five (thorough). oracle: exit status 0 or 1; no "Traceback" on stderr; status 1 => the shell\'s own diagnostic; '
         'status 0 => every reported location inside the LaTeX file. '
         'non-trivial = the answer differs from a valid one in exactly one place and still parses as JSON, or is cut inside a multi-byte character; distinct by (document, mutated answer, mode)')
@@ -40,6 +40,7 @@ DOCS = [
     'Wabcq\n',
     '\\section{Titel Wabcq}\nText Wabdq --- noch Wabeq \\cite{x}\n\\begin{itemize}\\item Wabfq\n\\end{itemize}\n',
     'a Wabcq b\n',
+    'Zeile eins Wabcq\nZeile zwei Wabdq\nZeile drei\nZeile vier Wabeq\nZeile f\u00fcnf\nZeile sechs\nZeile sieben\nZeile acht\nZeile neun\n',
 ]
 TYPES = [None, True, 7, 1.5, 'str', [], {}]
 PERT = [-1, 0, 1, 'len-1', 'len', 'len+1', 'len+2', 'len+3', 10 ** 6, -10 ** 6]
@@ -124,6 +125,20 @@ def mutations(plain, tier, rnd):
                    ('invalid-utf8', b'{"matches": [\xff\xfe]}'), ('bom', b'\xef\xbb\xbf{"matches": []}'), ('nan', b'{"matches": [{"offset": NaN, "length": 1}]}'),
                    ('huge-int', b'{"matches": [{"offset": 1e400, "length": 1}]}'), ('nested', b'{"matches": [[[[]]]]}')]:
         yield 'degenerate:' + lab, b, False
+    # several matches at once: a long (multi-line) one followed by short ones inside / behind it
+    lines = [i for i, ch in enumerate(plain) if ch == '\n']
+    if len(lines) >= 2 and base['matches']:
+        m0 = base['matches'][0]
+        k = 0
+        for o1 in (0, 2, lines[0] - 1):
+            for l1 in (lines[-1] - o1, lines[1] - o1 + 2, n - o1):
+                for o2 in (o1 + 1, lines[0] + 1, lines[1] + 1):
+                    for l2 in (1, 3):
+                        if 0 <= o1 and l1 > 0 and o1 + l1 <= n and 0 <= o2 and o2 + l2 <= n:
+                            k += 1
+                            a = {'matches': [dict(copy.deepcopy(m0), offset=o1, length=l1), dict(copy.deepcopy(m0), offset=o2, length=l2),
+                                             dict(copy.deepcopy(m0), offset=min(o2 + 1, n - 1), length=1)]}
+                            yield 'multi:%d+%d,%d+%d' % (o1, l1, o2, l2), json.dumps(a, ensure_ascii=False).encode('utf-8'), False
     if n <= 14:
         m0 = base['matches'][0] if base['matches'] else fakelt.make_match(plain, 0, 1, 1)
         for o in range(n):
@@ -175,7 +190,8 @@ def verdict(doc, answer, mode, workdir, label=''):
     with open(os.path.join(workdir, 'answer.bin'), 'wb') as f:
         f.write(answer)
     with watchdog(150):
-        rc, out, err = sut.run_shell(['--output', mode, '--language', 'de', 't.tex'], workdir,
+        ctxopt = ['--context', '0'] if label.startswith('multi:') else []
+        rc, out, err = sut.run_shell(['--output', mode, '--language', 'de'] + ctxopt + ['t.tex'], workdir,
                                      plan={'mode': 'raw', 'file': os.path.join(workdir, 'answer.bin')})
     err = err.decode('utf-8', 'replace')
     det = {'status': rc, 'stderr': err[-1500:], 'answer': answer.decode('utf-8', 'replace')[:600]}
@@ -216,11 +232,15 @@ def run_shard(ctx):
     for di, doc in enumerate(docs):
         (plain, cmap), _ = sut.tex2txt(doc, lang='de', pack='*')
         muts = list(mutations(plain, ctx.tier, rnd))
+        if di == 4:
+            muts = [m for m in muts if m[0].startswith('multi:')]
         if quick and di in (1, 2):
             # thin the type changes deterministically on two of the documents: the quick tier keeps every deletion, perturbation, truncation class
             muts = [m for j, m in enumerate(muts) if not m[0].startswith('type:') or (j + ctx.seed) % 4 == 0]
         for j, (label, ans, single) in enumerate(muts):
             modes = [MODES[(j + di + ctx.seed) % 5]] if quick else MODES
+            if label.startswith('multi:') and quick:
+                modes = ['html', MODES[(j + ctx.seed) % 4]]
             for mode in modes:
                 idx += 1
                 if idx % ctx.nshards != ctx.shard:
